@@ -105,16 +105,21 @@ def process_nodes_recursive(
     variables=None,
     mode=1,
     premium=False,
+    rule_declarations_map=None,
 ):
     if variables is None:
         variables = {}
+    if rule_declarations_map is None:
+        rule_declarations_map = {}
 
     for node in node_list:
         if isinstance(node, QualifiedRule):
             # Process declarations
-            declarations = tinycss2.parse_declaration_list(
-                node.content, skip_whitespace=False, skip_comments=False
-            )
+            declarations = rule_declarations_map.get(id(node))
+            if declarations is None:
+                declarations = tinycss2.parse_declaration_list(
+                    node.content, skip_whitespace=False, skip_comments=False
+                )
             valid_decls = [d for d in declarations if isinstance(d, Declaration)]
 
             modified = False
@@ -353,6 +358,7 @@ def main(path, default_bg, mode, premium):
                 variables,
                 mode=mode,
                 premium=premium,
+                rule_declarations_map=rule_declarations_map,
             )
 
             # Post-process: Update content of rules that had variables modified
